@@ -169,7 +169,7 @@ fn lay_out(lines: &[Ln], lay: Layout) -> Files {
     }
 }
 
-const DECS: [&str; 16] = [
+const DECS: [&str; 17] = [
     "none",
     "own-line-before:é",
     "own-line-before:→",
@@ -186,6 +186,7 @@ const DECS: [&str; 16] = [
     "no-trailing-newline",
     "tab-indented-fault-line",
     "tab-indented-all-lines",
+    "crlf-line-endings",
 ];
 
 fn find_fault(files: &Files) -> (usize, usize) {
@@ -262,6 +263,14 @@ fn decorate(mut files: Files, d: usize, fault: &Fault) -> Option<(Files, bool)> 
             for l in files[fi].1.iter_mut() {
                 let t = l.text.clone();
                 l.text = format!("\t{}", t);
+            }
+        }
+        16 => {
+            // CR LF line endings in every file: a location is a byte range of the file as it is on disk
+            for f in files.iter_mut() {
+                for l in f.1.iter_mut() {
+                    l.text.push('\r');
+                }
             }
         }
         _ => unreachable!(),
@@ -697,6 +706,7 @@ pub fn run(ctx: &Ctx) -> Report {
         "printed-location-compared",
         "printed-location-compared,multibyte-before-span",
         "decoration:string-element-before-fault",
+        "decoration:crlf-line-endings",
     ] {
         rep.require_class(c);
     }
